@@ -110,19 +110,19 @@ def _cvt_stub(ctx):
     return cvtColor
 
 
-@ob("C18.bytes", cases=product_cases(form=("grey", "single-channel", "colour")), mods=MODS, funcs=FUNCS, samples=(0, 0),
+@ob("C18.bytes", cases=product_cases(form=("grey", "single-channel", "colour"), hw=((2, 3), (1, 3), (3, 1), (1, 1))), mods=MODS, funcs=FUNCS, samples=(0, 0),
     stubs={"cv2.imdecode": _decode_stub, "cv2.cvtColor": _cvt_stub},
     cite="decoding an encoded lossless byte string yields the original array with channels in RGB order and the matching image kind",
     note="imread_from_bytes with the decoder as an assumed contract (returns the stored array, BGR order, flags must be IMREAD_UNCHANGED)")
-def c18_bytes(ctx, form):
-    shape = {"grey": (2, 3), "single-channel": (2, 3, 1), "colour": (2, 3, 3)}[form]
+def c18_bytes(ctx, form, hw=(2, 3)):
+    shape = {"grey": tuple(hw), "single-channel": (*hw, 1), "colour": (*hw, 3)}[form]
     stored = ctx.array("p", shape)
     ctx.decoded = stored
     img = darsia.imread_from_bytes(b"\x00\x01", dimensions=[1.0, 2.0])
     if form == "colour":
         ctx.ensure("colour: optical image with channels reversed to RGB", isinstance(img, darsia.OpticalImage) and same(img.img, stored[..., ::-1]))
     else:
-        ctx.ensure("grey / single channel: scalar image of the 2-D array", isinstance(img, darsia.ScalarImage) and same(img.img, stored.reshape(2, 3)))
+        ctx.ensure("grey / single channel: scalar image of the 2-D array", isinstance(img, darsia.ScalarImage) and same(img.img, stored.reshape(*hw)))
     ctx.ensure("keyword metadata is passed on", eq(list(img.dimensions), [1.0, 2.0]))
 
 
@@ -221,21 +221,21 @@ def c18_npz(ctx, dtype, dim):
             ctx.ensure(f"{tag}: saved image untouched", bool(np.array_equal(img.img, arr)))
 
 
-@ob("C18.codec", kind="B", cases=product_cases(fmt=(".png", ".tiff"), depth=("uint8", "uint16"), form=("grey", "single-channel", "colour")), funcs=FUNCS, samples=(1, 2),
+@ob("C18.codec", kind="B", cases=product_cases(fmt=(".png", ".tiff"), depth=("uint8", "uint16"), form=("grey", "single-channel", "colour"), hw=((5, 7), (1, 7), (5, 1), (1, 1))), funcs=FUNCS, samples=(1, 2),
     cite="PNG/TIFF byte strings of 8/16-bit grey, single-channel and colour arrays ... writing an optical image to a lossless format and reading it returns the same colours",
     note="bounded: real codecs (fidelity of OpenCV's PNG / TIFF codecs is outside the reach of contracts)")
-def c18_codec(ctx, fmt, depth, form):
+def c18_codec(ctx, fmt, depth, form, hw=(5, 7)):
     import cv2
     rng = np.random.default_rng(ctx.rng.randrange(1 << 30))
     dt = np.dtype(depth)
-    shape = {"grey": (5, 7), "single-channel": (5, 7, 1), "colour": (5, 7, 3)}[form]
+    shape = {"grey": tuple(hw), "single-channel": (*hw, 1), "colour": (*hw, 3)}[form]
     rgb = rng.integers(0, np.iinfo(dt).max, shape).astype(dt)
     bgr = rgb[..., ::-1] if form == "colour" else rgb
     ok, buf = cv2.imencode(fmt, bgr)
     ctx.ensure("encoder accepted the array", bool(ok))
     with contextlib.redirect_stdout(io.StringIO()):
         img = darsia.imread_from_bytes(buf.tobytes(), dimensions=[1.0, 2.0])
-    want = rgb.reshape(5, 7) if form != "colour" else rgb
+    want = rgb.reshape(*hw) if form != "colour" else rgb
     ctx.ensure("decoded array == original (RGB order), same dtype", img.img.dtype == dt and img.img.shape == want.shape and bool(np.array_equal(img.img, want)))
     ctx.ensure("matching image kind", isinstance(img, darsia.OpticalImage if form == "colour" else darsia.ScalarImage))
     if form == "colour" and depth == "uint8":
